@@ -60,8 +60,10 @@ def vt_mode():
         try:
             f = bindgentables.facts()
             _modes["m"] = "%d %d" % (f["vt_mode"], f["clash"])
+            _modes["cpp"] = "%d" % f["cpp_release"]
         except Exception:
             _modes["m"] = "0 0"
+            _modes["cpp"] = "0"
     return _modes["m"]
 
 
@@ -70,9 +72,35 @@ def build_harness(tier):
 
 
 def model_line(l):
+    if l.startswith("117 "):
+        vt_mode()
+        return B.model_line_cpp(l).replace("117 |", "117 %s |" % _modes["cpp"], 1)
     # the two source-dependent decisions come from the translator, not from the case line
     body = l.split("|", 1)[1]
     return B.model_line("17 %s |%s" % (vt_mode(), body))
+
+
+def parse_model_cpp(mo, api):
+    rows = [r.strip() for r in (mo or "").split(";")]
+    texts, names = [], {}
+    for j in range(0, len(rows) - 4, 5):
+        h = [int(x) for x in rows[j].split()]
+        if len(h) != 5 or h[0] != 1:
+            break
+        nm = "".join(chr(int(x)) for x in rows[j + 1].split())
+        texts.append("".join(chr(int(x)) for x in rows[j + 2].split()))
+        names[(h[1], h[2], h[3], h[4])] = {"name": nm, "trace": [int(x) for x in rows[j + 3].split()][1:], "ret": [int(x) for x in rows[j + 4].split()][1:]}
+    es = B.entries(api)
+    vts = B.cpp_vtables(api)
+    gidx = {g["name"]: k for k, g in enumerate(api["groups"])}
+    serve = {}
+    for ei, e in enumerate(es):
+        vi = vts.index(e["ti"])
+        for fi in range(len(api["traits"][e["ti"]]["methods"])):
+            key = (1, vi, vi, fi) if e["obj"] else (0, gidx[e["cont"]], vi, fi)
+            n = names.get(key)
+            serve[(ei, fi)] = dict(n, k=0) if n else {"name": None, "k": -1, "trace": [], "ret": []}
+    return texts, serve
 
 
 def parse_model(mo):
@@ -96,18 +124,27 @@ def parse_model(mo):
 
 def one(idx, line, out, err, mo):
     api = B.line_api(line)
+    cpp = line.startswith("117 ")
     if out is None:
         return "-9 # fails=tool-error:%s" % re.sub(r"\s+", "_", err)[:200]
-    ws = B.extract_wrappers_c(out)
-    texts, serve = parse_model(mo)
     d = os.path.join(B.WORK, "d%d_%d" % (os.getpid(), idx))
     shutil.rmtree(d, ignore_errors=True)
     os.makedirs(d)
-    hp = os.path.join(d, "out.h")
-    open(hp, "w").write(out)
     es = B.entries(api)
-    drv = B.make_driver(api, es, {k: v["name"] for k, v in serve.items()}, ws, hp)
-    o, e = B.compile_run(drv, d, "drv")
+    if cpp:
+        ws = B.extract_wrappers_cpp(out, api)
+        texts, serve = parse_model_cpp(mo, api)
+        hp = os.path.join(d, "out.hpp")
+        open(hp, "w").write(out)
+        drv = B.make_driver_cpp(api, es, {k: v["name"] for k, v in serve.items()}, ws, hp)
+        o, e = B.compile_run_cpp(drv, d, "drv")
+    else:
+        ws = B.extract_wrappers_c(out)
+        texts, serve = parse_model(mo)
+        hp = os.path.join(d, "out.h")
+        open(hp, "w").write(out)
+        drv = B.make_driver(api, es, {k: v["name"] for k, v in serve.items()}, ws, hp)
+        o, e = B.compile_run(drv, d, "drv")
     shutil.rmtree(d, ignore_errors=True)
     rows = ["1 " + " ".join(str(ord(c)) for c in B.nows(w["text"])) for w in ws]
     if o is None:
@@ -122,8 +159,12 @@ def run_impl(lines):
     items = []
     for l in lines:
         api = B.line_api(l)
-        h, _ = H.render_c(api)
-        items.append((h, api.get("config", {}), "c"))
+        if l.startswith("117 "):
+            h, _ = H.render_cpp(api)
+            items.append((h, api.get("config", {}), "auto"))
+        else:
+            h, _ = H.render_c(api)
+            items.append((h, api.get("config", {}), "auto"))
     res = B.process_batch(items, "c17_")
     runner, _ = vlib.build_runner()
     mos = vlib.run_lines(runner, [model_line(l) for l in lines])
@@ -159,14 +200,32 @@ def expected_events(api, es, ei, fi):
     return call
 
 
+def split_marker(ev):
+    """C++ driver: events before / after the end of the object's scope (marker 999)"""
+    if 999 in ev:
+        k = ev.index(999)
+        return ev[:k], ev[k + 1:]
+    return ev, []
+
+
 def monitor(l, impl_rows, kv):
     api = B.line_api(l)
+    cpp = l.startswith("117 ")
     es = B.entries(api)
     ws, tr = _impl_rows(impl_rows)
     fails = []
+    for (ei, fi), r in sorted(tr.items()):
+        if fi < 1000:
+            continue
+        e = es[ei]
+        what = "%s.%s of %s<%s,empty Arc>" % (e["trait"], api["traits"][e["ti"]]["methods"][fi - 1000]["name"], e["cont"], e["ik"])
+        if r["status"] == -7:
+            fails.append("empty-context-crash:" + what)
+        elif split_marker(r["ev"])[0] != [2, ei, fi - 1000, 1, 1]:
+            fails.append("empty-context(%s):%s" % (" ".join(map(str, r["ev"])), what))
     for ei, e in enumerate(es):
         ms = api["traits"][e["ti"]]["methods"]
-        for fi in range(len(ms) + 1):
+        for fi in range(len(ms) + (0 if cpp else 1)):
             what = "%s.%s of %s<%s,%s>" % (e["trait"], ms[fi]["name"] if fi < len(ms) else "drop", e["cont"], e["ik"], e["ck"])
             r = tr.get((ei, fi))
             if r is None:
@@ -179,6 +238,31 @@ def monitor(l, impl_rows, kv):
                 fails.append("foreign-wrapper(%s):%s" % ({-2: "self", -3: "params", -4: "return"}[r["status"]], what))
                 continue
             exp = expected_events(api, es, ei, fi)
+            if cpp:
+                pre, post = split_marker(r["ev"])
+                m = ms[fi]
+                call = [2, ei, fi, 1, 1]
+                own_rel = ([4, 1] if e["ik"] == "Box" else []) + ([5] if e["ck"] == "Arc" else [])
+                if m["recv"] == "own":
+                    # ownership went to the callee: the wrapper clones the context before the call, releases the clone after it, and the
+                    # moved-from object releases nothing
+                    want_pre = ([1, 1] if e["ck"] == "Arc" else []) + call
+                    if pre[:len(want_pre)] != want_pre:
+                        fails.append("wrong-forward(%s):%s" % (" ".join(map(str, r["ev"])), what))
+                    elif e["ck"] == "Arc" and (pre[len(want_pre):] + post).count(3) != 1:
+                        fails.append("cpp-ctx-clone-not-released(%s):%s" % (" ".join(map(str, r["ev"])), what))
+                    elif [x for x in pre[len(want_pre):] + post if x != 3]:
+                        fails.append("moved-from-object-releases(%s):%s" % (" ".join(map(str, r["ev"])), what))
+                    elif r["retv"] != 1:
+                        fails.append(("ret-vtbl-uninit:" if r["retv"] == 2 else "wrong-return:") + what)
+                else:
+                    if pre != call:
+                        fails.append("wrong-forward(%s):%s" % (" ".join(map(str, r["ev"])), what))
+                    elif post != own_rel:
+                        fails.append("destructor(%s):%s" % (" ".join(map(str, r["ev"])), what))
+                    elif r["retv"] != 1:
+                        fails.append(("ret-vtbl-uninit:" if r["retv"] == 2 else "wrong-return:") + what)
+                continue
             if exp is None:
                 want = sorted(([(4, 1)] if e["ik"] == "Box" else []) + ([(5,)] if e["ck"] == "Arc" else []))
                 got, ev, i = [], r["ev"], 0
@@ -205,13 +289,16 @@ def compare(l, impl_rows, model_rows):
     api = B.line_api(l)
     es = B.entries(api)
     ws, tr = _impl_rows(impl_rows)
-    texts, serve = parse_model(model_rows)
+    cpp = l.startswith("117 ")
+    texts, serve = parse_model_cpp(model_rows, api) if cpp else parse_model(model_rows)
     if [B.nows(t) for t in texts] != ws:
         return False
     variants = {}
     for ei, e in enumerate(es):
         variants.setdefault(e["variant"], []).append(ei)
     for (ei, fi), r in tr.items():
+        if fi >= 1000:
+            continue
         s = serve.get((ei, fi))
         if s is None:
             return False
@@ -226,7 +313,8 @@ def compare(l, impl_rows, model_rows):
         ok = True
         while i < len(t):
             if t[i] == 1:
-                exp += [1, 1]
+                if not (cpp and es[ei]["ck"] != "Arc"):      # C++: clone_context() of a void context is a no-op
+                    exp += [1, 1]
                 i += 1
             elif t[i] == 2:
                 addr, nargs, lv = t[i + 1], t[i + 2], t[i + 3]
@@ -245,7 +333,8 @@ def compare(l, impl_rows, model_rows):
                     break
                 exp += [2, tgt[0], fis[0], 1, 1]
             elif t[i] == 3:
-                exp.append(3)
+                if not (cpp and es[ei]["ck"] != "Arc"):
+                    exp.append(3)
                 i += 1
             elif t[i] == 4:
                 exp += [4, 1]
@@ -255,7 +344,8 @@ def compare(l, impl_rows, model_rows):
                 i += 1
             else:
                 i += 1
-        if not ok or exp != r["ev"]:
+        got = split_marker(r["ev"])[0] if cpp else r["ev"]
+        if not ok or exp != got:
             return False
         rc = s["ret"]
         if rc and rc[0] == 2:
@@ -281,10 +371,22 @@ def nontrivial(l):
 def gen_cases(rng, tier):
     n = {"quick": 48, "thorough": 600, "search": 300}[tier]
     vm = vt_mode()
-    lines, dist = [], {"apis": n, "objects": 0, "groups": 0, "entries": 0, "clash": 0, "self_ret": 0, "consuming": 0, "cfg": 0}
+    lines, dist = [], {"apis": n, "c_mode": 0, "cpp_mode": 0, "objects": 0, "groups": 0, "entries": 0, "clash": 0, "self_ret": 0, "consuming": 0, "cfg": 0}
     for i in range(n):
         api = B.gen_api(rng.fork("api%d" % i), "small" if i % 4 == 0 else "normal")
-        lines.append(B.api_line(api, vm))
+        cpp = (i % 3 == 2)
+        if cpp:
+            # C++ templates are generic over the context; how cbindgen spells a context-free default is not known here
+            if api["config"].get("default_context") == "" or ("default_container" in api["config"] and "default_context" not in api["config"]):
+                api["config"]["default_context"] = "Arc"
+            # groups whose container keeps a non-empty RetTmp field are outside the reconstructed C++ shape (DESIGN, candidates)
+            for g in api["groups"]:
+                for ti in g["traits"]:
+                    api["traits"][ti]["rettmp"] = False
+            lines.append(B.api_line(api, "", 117))
+        else:
+            lines.append(B.api_line(api, vm))
+        dist["cpp_mode" if cpp else "c_mode"] += 1
         dist["objects"] += len(api["objects"])
         dist["groups"] += len(api["groups"])
         dist["entries"] += len(B.entries(api))
@@ -299,17 +401,25 @@ def gen_cases(rng, tier):
 
 
 def known_match(kf, l, fails):
-    m = kf.get("match", {})
-    pats = m.get("fail_patterns", [])
+    """the finding is among the failures of this case, and every failure of the case belongs to some recorded finding of C17"""
     real = [f for f in fails if f != "model-mismatch"]
     if not real:
         return False
-    return all(any(re.search(p, f) for p in pats) for f in real)
+    mine = kf.get("match", {}).get("fail_patterns", [])
+    if kf.get("match", {}).get("mode") == "cpp" and not l.startswith("117 "):
+        return False
+    if not any(re.search(p, f) for p in mine for f in real):
+        return False
+    allp = []
+    for k in vlib.known_findings(PROP):
+        if k.get("status") == "known" and (k.get("match", {}).get("mode") != "cpp" or l.startswith("117 ")):
+            allp += k.get("match", {}).get("fail_patterns", [])
+    return all(any(re.search(p, f) for p in allp) for f in real)
 
 
 def describe(l):
     import json
-    return json.dumps(B.line_api(l), separators=(",", ":"), sort_keys=True)
+    return ("C++ " if l.startswith("117 ") else "C ") + json.dumps(B.line_api(l), separators=(",", ":"), sort_keys=True)
 
 
 def shrink_line(line, pred):
